@@ -151,6 +151,9 @@ class Monitor:
         self.names = names
         self.pre = {n.name: (node_stock(n, names), node_decayed(n, names)) for n in model.nodes.values()}
         self.pre_arcs = {a.name: arc_transit(a, names) for a in model.arcs.values()}
+        # a decaying arc decays its queue at close-out "for the following timestep" and starts that timestep with this
+        # amount already in total_decayed: within the timestep only the growth of total_decayed is decay of the timestep
+        self.pre_arc_dec = {a.name: cvec(a.total_decayed, names) for a in model.arcs.values() if hasattr(a, "total_decayed")}
         self.pre_surf = {(n.name, i): self.num(sf.storage["volume"]) for n in model.nodes.values()
                          for i, sf in enumerate(getattr(n, "surfaces", []))}
         # C03 close-out: what the stores hold now + what decayed at close-out == what they held before it
@@ -204,12 +207,19 @@ class Monitor:
             tot_post = vadd(tot_post, tr)
             tot_pre = vadd(tot_pre, self.pre_arcs[a.name])
             if hasattr(a, "total_decayed"):
-                decw = vadd(decw, cvec(a.total_decayed, names))
+                decw = vadd(decw, vsub(cvec(a.total_decayed, names), self.pre_arc_dec.get(a.name, zeros(len(names)))))
             vi, vo = cvec(a.vqip_in, names), cvec(a.vqip_out, names)
             rec["flows"][a.name] = vo[0]
             sc = max(abs(float(x)) for x in vi + vo + (1.0,)) if self.mode != "exact" else 1
             if not (self.nonneg(vi, sc) and self.nonneg(vo, sc) and self.nonneg((a.flow_in, a.flow_out), sc)):
-                self.bad("C06", f"{date.date()} arc {a.name} ({type(a).__name__}) record negative: in {fmt(vi)} out {fmt(vo)} flow_in {a.flow_in}")
+                # recorded known finding queuearc-late-bounce, by mechanism: only the in-record of a travel-time arc that
+                # started the timestep with water admitted earlier is negative (the bounced remainder of that water was
+                # subtracted from it); anything else negative is reported
+                known = None
+                if (type(a).__name__ in ("QueueArc", "AltQueueArc", "DecayArc", "DecayArcAlt") and not self.nonneg(vi, sc)
+                        and self.nonneg(vo, sc) and self.nonneg((a.flow_in, a.flow_out), sc) and self.pre_arcs[a.name][0] > 0):
+                    known = "late-bounce"
+                self.bad("C06", f"{date.date()} arc {a.name} ({type(a).__name__}) record negative: in {fmt(vi)} out {fmt(vo)} flow_in {a.flow_in}", known)
             if type(a).__name__ in ("Arc", "PullArc", "PushArc") and vi != vo:
                 self.bad("C02", f"{date.date()} arc {a.name}: in-record {fmt(vi)} != out-record {fmt(vo)}")
             if (frac(a.flow_in) if self.mode == "exact" else a.flow_in) > (frac(a.capacity) if self.mode == "exact" else a.capacity * (1 + 1e-9) + 1e-9):
